@@ -81,8 +81,11 @@ def native(pid, tier, pas, binary):
     if pas == "tsan":
         env["TSAN_OPTIONS"] = f"halt_on_error=0 exitcode=66 log_path={logbase} history_size=4"
     else:
-        env["ASAN_OPTIONS"] = f"halt_on_error=1 exitcode=67 log_path={logbase} detect_leaks=1 detect_stack_use_after_return=0"
-        env["LSAN_OPTIONS"] = "exitcode=67"
+        # no leak detection: none of the properties is about heap leaks, and LeakSanitizer's exit-time
+        # scan races with harness threads that are still running their thread-local destructors
+        # (std::thread::scope returns when the closures are done, not when the threads are gone):
+        # it reported per-thread scratch buffers of the library as "leaked" on the unchanged tree
+        env["ASAN_OPTIONS"] = f"halt_on_error=1 exitcode=67 log_path={logbase} detect_leaks=0 detect_stack_use_after_return=0"
     t0 = time.time()
     try:
         p = subprocess.run([binary, "run", pid, "quick"], env=env, stdout=subprocess.PIPE, stderr=subprocess.STDOUT, text=True, timeout=3600)
